@@ -212,6 +212,22 @@ Theorem C09_ws_upgrade_any_segmentation : forall useg, has_prefix (concat useg) 
 Proof. exact ws_upgrade_any_segmentation. Qed.
 Print Assumptions C09_ws_upgrade_any_segmentation.
 
+(* The same for everything the upstream sends (head, payload in the same chunk, what follows):
+   the forwarded chunk (at most 1024 bytes) followed by what the relay copies from the rest of
+   the connection is that stream, without a hole. *)
+Theorem C09_ws_client_stream_any_segmentation : forall useg, has_prefix (concat useg) ws_101 = true ->
+  exists chunk rest, ws_read_first useg = Ok (Some (chunk, rest)) /\
+    has_prefix chunk ws_101 = true /\ (length chunk <= 1024)%nat /\
+    exists c, copy_buffer rest = Ok c /\ chunk ++ c = concat useg.
+Proof. exact ws_client_stream_any_segmentation. Qed.
+Print Assumptions C09_ws_client_stream_any_segmentation.
+
+Theorem C09_ws_head_with_payload_one_chunk :
+  exists chunk rest, ws_read_first [wit_reply_head ++ symseq 0 3000] = Ok (Some (chunk, rest)) /\
+    length chunk = 1024%nat /\ chunk ++ concat rest = wit_reply_head ++ symseq 0 3000.
+Proof. exact ws_head_with_payload_one_chunk. Qed.
+Print Assumptions C09_ws_head_with_payload_one_chunk.
+
 Theorem C09_ws_read_first_never_out_of_fuel : forall useg, ws_read_first useg <> Err 77%N.
 Proof. exact ws_read_first_never_out_of_fuel. Qed.
 Print Assumptions C09_ws_read_first_never_out_of_fuel.
